@@ -17,6 +17,8 @@ struct Event { int t; int kind; const void* addr; uint64_t a, b; int ok; int ord
 void sched_point(const void* addr, int kind, int ord) noexcept;            // before every atomic access / blocking call
 void log_event(int kind, const void* addr, uint64_t a, uint64_t b, int ok, int ord) noexcept; // after it
 void user_event(const char* name, const void* p) noexcept;                  // CDS_VERIF_EVENT
+extern bool g_post_store_points;                                            // drivers of lock-like code set this: a store is followed by a second scheduling point, so that plain
+                                                                            // accesses placed (wrongly) after an unlocking store can be interleaved with other threads
 bool weak_cas_spurious() noexcept;                                          // strategy may inject a spurious weak-CAS failure
 int  self() noexcept;                                                       // scheduler thread index (0 = root) or -1
 bool active() noexcept;
